@@ -115,6 +115,8 @@ func (v rv) canon() string {
 		return "string:" + hexOf(v.s)
 	case 'b':
 		return fmt.Sprintf("bool:%v", v.b)
+	case 'n':
+		return "nil"
 	case 'E':
 		return "error"
 	}
@@ -134,6 +136,8 @@ func (v rv) sprint() string {
 		return v.s
 	case 'b':
 		return fmt.Sprintf("%v", v.b)
+	case 'n':
+		return "<nil>"
 	}
 	return "?"
 }
@@ -242,7 +246,12 @@ func refEval(e *Ex, env map[string]rv) rv {
 		}
 		if op == "&&" || op == "||" {
 			if l.k != 'b' {
-				// the right operand is still evaluated by an eager evaluator; either way the result is an error
+				// a left operand that is not a bool selects nothing the property speaks about: the engine evaluates the
+				// right operand and then rejects the kinds (the model does the same); either way the result is an error,
+				// and a failure of the right operand comes first
+				if rr := refEval(e.Kids[1], env); rr.k == 'E' || rr.k == 'U' {
+					return rr
+				}
 				return rErr
 			}
 			if (op == "&&" && !l.b) || (op == "||" && l.b) {
@@ -359,6 +368,8 @@ func refBin(op string, l, r rv) rv {
 			}
 		case l.k == 's' && r.k == 's':
 			c = cmp3(l.s < r.s, l.s == r.s)
+		case l.k == 'n' && r.k == 'n' && (op == "==" || op == "!="):
+			c = 0
 		case l.k == 'b' && r.k == 'b' && (op == "==" || op == "!="):
 			c = cmp3(false, l.b == r.b)
 			if l.b != r.b {
@@ -487,6 +498,9 @@ func genExprEnv(r *rng) *exprEnv {
 	env.ref["true"] = rv{k: 'b', b: true}
 	env.ref["false"] = rv{k: 'b', b: false}
 	env.bools = []string{"b1", "b2", "true", "false"}
+	kvs = append(kvs, kv{"vnil", vNil()})
+	env.ref["vnil"] = rv{k: 'n'}
+	env.ref["nil"] = rv{k: 'n'}
 	env.frame = vMap(kvs...)
 	return env
 }
@@ -498,7 +512,11 @@ var relOps = []string{"==", "!=", "<", "<=", ">", ">="}
 // genEx builds an expression aiming at type ty; wrong injects an ill-typed operand with a small probability.
 func genEx(r *rng, env *exprEnv, ty byte, d int, wrong int) *Ex {
 	if wrong > 0 && r.p(wrong) {
-		ty = "ifsb"[r.n(4)]
+		ty = "ifsbn"[r.n(5)]
+	}
+	if ty == 'n' {
+		// an operand that evaluates successfully to untyped nil (the literal, or a nil value from the data)
+		return &Ex{Op: "var", Text: r.pick([]string{"nil", "vnil"}), Ty: 'n'}
 	}
 	if d <= 0 || r.p(25) {
 		switch ty {
